@@ -11,7 +11,7 @@ KNOWN = os.path.join(VERIF, 'known_findings.json')
 
 # rules that scan for a violating construct wherever it sits (no expectation about the shape of the surrounding function):
 # their verdict stands even when the functions around the construct were restructured
-ROBUST_RULES = {'STATE', 'DECOR', 'RNG', 'GLOBALS', 'DEFS'}
+ROBUST_RULES = {'STATE', 'DECOR', 'RNG', 'GLOBALS', 'DEFS', 'WRAP'}
 
 
 class Obligation:
